@@ -168,6 +168,46 @@ Definition sftp_event (f : file) (e : event) : file :=
 Definition os_event (f : file) (e : event) : file :=
   match e with EOp _ o => os_op f o | EEnv g => g f end.
 
+(* ---- every kind of target ---------------------------------------------------------- *)
+(* what the served name resolves to.  All four os.* calls follow symbolic links, so a name
+   that is a link to X is the node X (the link itself is never touched); a dangling link, a
+   name under a missing directory and a name removed since the handle was opened are NMissing.
+   A directory carries the same metadata record (its f_data is not used). *)
+Inductive node := NFile (f : file) | NDir (f : file) | NMissing.
+
+Definition SFTP_OK : Z := 0.
+Definition SFTP_NO_SUCH_FILE : Z := 2.     (* convert_errno ENOENT / ENOTDIR *)
+Definition SFTP_FAILURE : Z := 4.          (* convert_errno of anything else, e.g. EISDIR *)
+
+Definition any_step (a : attrs) : bool :=
+  has a FLAG_PERMISSIONS || has a FLAG_UIDGID || has a FLAG_AMTIME || has a FLAG_SIZE.
+
+(* set_file_attr on a node, with the status the stub's chattr answers: the first os.* call that
+   raises ends the request (earlier steps stay applied) *)
+Definition set_node_attr (now : Z) (n : node) (a : attrs) : node * Z :=
+  match n with
+  | NFile f => (NFile (set_file_attr now f a), SFTP_OK)
+  | NDir f =>
+      let f' := step_utime a (step_chown a (step_chmod a f)) in
+      (* open(dirname, "r+") raises IsADirectoryError *)
+      (NDir f', if has a FLAG_SIZE then SFTP_FAILURE else SFTP_OK)
+  | NMissing => (NMissing, if any_step a then SFTP_NO_SUCH_FILE else SFTP_OK)
+  end.
+
+(* the os.* calls themselves on a node: Some errno-class status, or the new node *)
+Definition os_chmod_node (n : node) (m : Z) : node * Z :=
+  match n with NFile f => (NFile (os_chmod f m), SFTP_OK) | NDir f => (NDir (os_chmod f m), SFTP_OK)
+             | NMissing => (NMissing, SFTP_NO_SUCH_FILE) end.
+Definition os_chown_node (n : node) (u g : Z) : node * Z :=
+  match n with NFile f => (NFile (os_chown f u g), SFTP_OK) | NDir f => (NDir (os_chown f u g), SFTP_OK)
+             | NMissing => (NMissing, SFTP_NO_SUCH_FILE) end.
+Definition os_utime_node (n : node) (t1 t2 : Z) : node * Z :=
+  match n with NFile f => (NFile (os_utime f t1 t2), SFTP_OK) | NDir f => (NDir (os_utime f t1 t2), SFTP_OK)
+             | NMissing => (NMissing, SFTP_NO_SUCH_FILE) end.
+Definition os_truncate_node (now : Z) (n : node) (k : Z) : node * Z :=
+  match n with NFile f => (NFile (os_truncate now f k), SFTP_OK) | NDir f => (NDir f, SFTP_FAILURE)
+             | NMissing => (NMissing, SFTP_NO_SUCH_FILE) end.
+
 (* ---- correspondence run -------------------------------------------------- *)
 Definition canon_file (f : file) : list Z :=
   [f_mode f; f_uid f; f_gid f; f_atime f; f_mtime f; Z.of_nat (length (f_data f))] ++ f_data f.
@@ -191,3 +231,20 @@ Fixpoint run_steps (f : file) (steps : list step) : list Z :=
 
 Definition run_seq (c : (list Z * Z * Z * Z * Z * Z) * list step) : list Z :=
   let '((d, m, u, g, t1, t2), steps) := c in run_steps (mkfile d m u g t1 t2) steps.
+
+Definition canon_node (n : node) : list Z :=
+  match n with
+  | NFile f => 1 :: canon_file f
+  | NDir f => [2; f_mode f; f_uid f; f_gid f; f_atime f; f_mtime f]
+  | NMissing => [3]
+  end.
+
+(* case: (now, kind (1 file, 2 directory, 3 missing), record, request fields); output: status, node *)
+Definition run_node
+  (c : Z * Z * (list Z * Z * Z * Z * Z * Z) *
+       (option Z * option (Z * Z) * option Z * option (Z * Z))) : list Z :=
+  let '(now, kind, (d, m, u, g, t1, t2), (size, ids, mode, times)) := c in
+  let f := mkfile d m u g t1 t2 in
+  let n := if kind =? 1 then NFile f else if kind =? 2 then NDir f else NMissing in
+  let '(n', st) := set_node_attr now n (mk_attrs size ids mode times) in
+  st :: canon_node n'.
